@@ -67,6 +67,27 @@ TrSeq == /\ IsEv("seq")
             ELSE Skip
          /\ UNCHANGED <<opt, hist>> /\ Advance
 
+\* encv: Map.Xml() of a random JSON-shaped value (logged with plain-string keys and payloads; CharsOf turns them into the
+\* character sequences of the encoder specification): exact bytes, an error exactly for a non-scalar / nil attribute entry (C03)
+RECURSIVE ToChars(_)
+ToChars(v) == IF v.t = "m" THEN VM([c \in {CharsOf(k) : k \in DOMAIN v.kv} |-> ToChars(v.kv[CHOOSE k \in DOMAIN v.kv : CharsOf(k) = c])])
+              ELSE IF v.t = "l" THEN VL([i \in 1..Len(v.it) |-> ToChars(v.it[i])])
+              ELSE [t |-> v.t, v |-> CharsOf(v.v)]
+RECURSIVE TextOKx(_, _)      \* domain: the text key holds a non-nil scalar
+TextOKx(v, tk) == IF IsMap(v) THEN /\ (tk \in DOMAIN v.kv => IsScalar(v.kv[tk]) /\ v.kv[tk].t # "n")
+                                   /\ \A k \in DOMAIN v.kv : TextOKx(v.kv[k], tk)
+                  ELSE IF IsList(v) THEN \A i \in 1..Len(v.it) : TextOKx(v.it[i], tk) ELSE TRUE
+TrEncv == /\ IsEv("encv")
+          /\ LET e == Trace[l] eo == EncOpts(opt) mc == ToChars(e.m)
+                 tk == Cs1(eo.kpfx) \o <<"t", "e", "x", "t">>
+                 single == Cardinality(DOMAIN mc.kv) = 1
+                 rk == CHOOSE k \in DOMAIN mc.kv : TRUE IN
+             IF CodecDomain(opt) /\ TextOKx(mc, tk) /\ (single => ~IsAttrKey(eo, rk) /\ rk # tk)
+             THEN LET ns == EncodeRoot(mc, <<>>, eo) IN
+                  IF HasErr(ns) THEN e.encerr = "err" ELSE e.encerr = "ok" /\ e.x = Join(RenderCompact(ns, eo))
+             ELSE Skip
+          /\ UNCHANGED <<opt, hist>> /\ Advance
+
 \* a NewMapXml call made by the repository's own tests (hook VerifOnDecode): the registers are LOGGED with the call
 \* (the test suite's setter calls are not observed), the document is the encoding/xml token stream of the bytes
 TrDecX == /\ IsEv("decx")
@@ -77,7 +98,7 @@ TrDecX == /\ IsEv("decx")
           /\ UNCHANGED <<opt, hist>> /\ Advance
 
 TraceInit == l = 1 /\ opt = InitOpt /\ hist = <<>> /\ TLCSet(1, 1) /\ TLCSet(2, 0)
-TraceNext == TrReset \/ TrSet \/ TrDec \/ TrRt \/ TrSeq \/ TrDecX
+TraceNext == TrReset \/ TrSet \/ TrDec \/ TrRt \/ TrSeq \/ TrDecX \/ TrEncv
 TraceSpec == TraceInit /\ [][TraceNext]_tvars
 TraceAccepted ==
   /\ PrintT("TRACE-SKIPPED " \o ToString(TLCGet(2)))
